@@ -2,7 +2,8 @@
 (* Implementation -> spec: every step the real Consist executed (driven call by call like         *)
 (* ConsistSimulation::solve_step, and again through a real ConsistSimulation::walk) is bound to    *)
 (* ConsistSplit's variables and ConsistSplit's own Level-A invariants are evaluated on it; only   *)
-(* accepted steps are judged. Level-B disagreements (aggregates, accept/reject verdict, shares,   *)
+(* accepted steps are judged - consists with limit checking on and off (lim) alike, see the reading of *)
+(* the statement next to ConsistSplit!InRangePos. Level-B disagreements (aggregates, accept/reject verdict, shares,   *)
 (* published limits and hidden state of the toy units) are counted as drift and never decide.     *)
 (* Failures do not block: they are appended to `viol` and the state re-synchronises to the        *)
 (* recorded one, so every line of every case is examined in one pass.                             *)
@@ -14,13 +15,13 @@ VARIABLES l,        \* next line of Rec
           toy,      \* the units of the case are the toy units Level B knows
           viol,     \* <<line, case, invariant>> of every Level-A failure
           stats
-tvars == <<pol, units, ust, kind, rat, pub, rgn, agg, req, acc, p, mpo, mdb, den, phase, hist, l, toy, viol, stats>>
+tvars == <<lim, pol, units, ust, kind, rat, pub, rgn, agg, req, acc, p, mpo, mdb, den, phase, hist, l, toy, viol, stats>>
 
-TInit == /\ l = 1 /\ viol = <<>> /\ toy = FALSE /\ phase = "trace" /\ hist = <<>>
+TInit == /\ l = 1 /\ viol = <<>> /\ toy = FALSE /\ lim = TRUE /\ phase = "trace" /\ hist = <<>>
          /\ stats = [cases |-> 0, steps |-> 0, accepted |-> 0, rejected |-> 0, walk_steps |-> 0, walk_short |-> 0,
                      pos |-> 0, neg |-> 0, zero |-> 0, regen_deficit |-> 0, out_deficit |-> 0, inexact |-> 0,
                      drift_agg |-> 0, drift_verdict |-> 0, drift_split |-> 0, drift_pub |-> 0, drift_ust |-> 0,
-                     toy_steps |-> 0, publish_err |-> 0, out_of_domain |-> 0, panics |-> 0]
+                     toy_steps |-> 0, nolim_cases |-> 0, nolim_steps |-> 0, nolim_over |-> 0, nolim_acc |-> 0, nolim_over_acc |-> 0, publish_err |-> 0, out_of_domain |-> 0, panics |-> 0]
          /\ pol = "Proportional" /\ units = <<>> /\ ust = <<>> /\ kind = <<>> /\ rat = <<>> /\ pub = <<>> /\ rgn = <<>>
          /\ agg = [out_max |-> 0, reves |-> 0, non_reves |-> 0, regen_max |-> 0, dyn_max |-> 0, def_out |-> 0, def_regen |-> 0]
          /\ req = 0 /\ acc = FALSE /\ p = <<>> /\ mpo = <<>> /\ mdb = <<>> /\ den = 1
@@ -31,16 +32,17 @@ B2N(b) == IF b THEN 1 ELSE 0
 
 Begin == /\ Rec[l].ev = "begin"
          /\ pol' = Rec[l].desc.pdct /\ units' = Rec[l].desc.units /\ toy' = Rec[l].desc.toy
+         /\ lim' = (IF "lim" \in DOMAIN Rec[l].desc THEN Rec[l].desc.lim ELSE TRUE)      \* Consist::set_assert_limits(lim)
          /\ ust' = [i \in 1..Len(units') |-> IF toy' THEN InitUst(units'[i]) ELSE 0]
          /\ acc' = FALSE
-         /\ stats' = [stats EXCEPT !.cases = @ + 1]
+         /\ stats' = [stats EXCEPT !.cases = @ + 1, !.nolim_cases = @ + B2N(~lim')]
          /\ UNCHANGED <<kind, rat, pub, rgn, agg, req, p, mpo, mdb, den, viol>>
 
 (* second pass of a case (the walk) starts from the initial units again *)
 Pass == /\ Rec[l].ev = "Pass"
         /\ ust' = [i \in 1..Len(units) |-> IF toy THEN InitUst(units[i]) ELSE 0]
         /\ acc' = FALSE
-        /\ UNCHANGED <<pol, units, toy, kind, rat, pub, rgn, agg, req, p, mpo, mdb, den, viol, stats>>
+        /\ UNCHANGED <<lim, pol, units, toy, kind, rat, pub, rgn, agg, req, p, mpo, mdb, den, viol, stats>>
 
 Near(a, b, tol) == a - b <= tol /\ b - a <= tol
 AggNear(a, b, tol) == /\ Near(a.out_max, b.out_max, tol) /\ Near(a.reves, b.reves, tol)
@@ -48,7 +50,7 @@ AggNear(a, b, tol) == /\ Near(a.out_max, b.out_max, tol) /\ Near(a.reves, b.reve
                       /\ Near(a.dyn_max, b.dyn_max, tol)
 
 Step == /\ Rec[l].ev = "Step"
-        /\ UNCHANGED <<pol, units, toy>>
+        /\ UNCHANGED <<lim, pol, units, toy>>
         /\ LET r == Rec[l]
                n == Len(r.p)
                live == r.via = "api"
@@ -56,7 +58,7 @@ Step == /\ Rec[l].ev = "Step"
            /\ kind' = r.kind /\ rat' = r.rat /\ pub' = r.pub /\ rgn' = r.rgn /\ agg' = r.agg
            /\ req' = r.req /\ acc' = r.acc /\ p' = r.p /\ mpo' = r.mpo /\ mdb' = r.mdb /\ den' = 1
            /\ ust' = r.ust
-           /\ Report(Names(<< <<"Sum", Sum'>>, <<"RangePos", RangePosOf(r.acc, r.req, r.p, r.pub, 1, IF r.exact THEN 0 ELSE 1)>>, <<"RangeNeg", RangeNeg'>>,
+           /\ Report(Names(<< <<"Sum", Sum'>>, <<"RangePos", RangePosOf(r.acc /\ InRangePos', r.req, r.p, r.pub, 1, IF r.exact THEN 0 ELSE 1)>>, <<"RangeNeg", RangeNeg'>>,
                               <<"Zero", (r.sg = 0) => Zero'>>, <<"NoOpposite", NoOpposite'>>, <<"Regen", Regen'>>,
                               <<"BatteryFirst", BatteryFirst'>>,
                               <<"KindsAsBuilt", r.kind = [i \in 1..Len(units) |-> units[i].k]>>,
@@ -70,8 +72,9 @@ Step == /\ Rec[l].ev = "Step"
                               <<"RollGetRes", live => RollGetRes(r)>> >>))
            /\ LET tol == (n \div 2) + 1
                   a   == AggOf(r.kind, r.rat, r.pub, r.rgn, r.agg)
-                  ok  == Accepts(pol, r.kind, r.rat, r.pub, r.rgn, r.agg, r.req)
                   sp  == SplitOf(pol, r.kind, r.rat, r.pub, r.rgn, WithDef(r.agg, r.req), r.req)
+                  ok  == /\ Accepts(lim, pol, r.kind, r.rat, r.pub, r.rgn, r.agg, r.req)
+                         /\ (toy /\ ~lim => UnitsOk(r.kind, r.rat, r.pub, sp))
                   dAgg == ~AggNear(a, r.agg, tol)
                   dVer == ok # r.acc
                   dSpl == r.acc /\ ok /\ \E i \in 1..n : ~Near(r.p[i] * sp.den, sp.num[i], 2 * sp.den)
@@ -87,6 +90,8 @@ Step == /\ Rec[l].ev = "Step"
                              !.out_deficit = @ + B2N(r.acc /\ r.req > 0 /\ r.agg.def_out > 0),
                              !.inexact = @ + B2N(~r.exact),
                              !.toy_steps = @ + B2N(toy),
+                             !.nolim_steps = @ + B2N(~lim /\ live), !.nolim_over = @ + B2N(~lim /\ live /\ r.req > r.agg.out_max),
+                             !.nolim_acc = @ + B2N(~lim /\ r.acc), !.nolim_over_acc = @ + B2N(~lim /\ r.acc /\ r.req > r.agg.out_max),
                              !.drift_agg = @ + B2N(dAgg), !.drift_verdict = @ + B2N(dVer),
                              !.drift_split = @ + B2N(dSpl), !.drift_pub = @ + B2N(dPub), !.drift_ust = @ + B2N(dUst)]
 
@@ -95,17 +100,17 @@ Step == /\ Rec[l].ev = "Step"
 Walk == /\ Rec[l].ev = "Walk"
         /\ stats' = [stats EXCEPT !.walk_short = @ + B2N(Rec[l].steps # Rec[l].want)]
         /\ acc' = FALSE
-        /\ UNCHANGED <<pol, units, toy, ust, kind, rat, pub, rgn, agg, req, p, mpo, mdb, den, viol>>
+        /\ UNCHANGED <<lim, pol, units, toy, ust, kind, rat, pub, rgn, agg, req, p, mpo, mdb, den, viol>>
 
 PublishErr == /\ Rec[l].ev = "PublishErr"
               /\ stats' = [stats EXCEPT !.publish_err = @ + 1]
-              /\ UNCHANGED <<pol, units, toy, ust, kind, rat, pub, rgn, agg, req, acc, p, mpo, mdb, den, viol>>
+              /\ UNCHANGED <<lim, pol, units, toy, ust, kind, rat, pub, rgn, agg, req, acc, p, mpo, mdb, den, viol>>
 
 (* the pass ended because a unit published a negative traction limit: outside the explored domain *)
 (* (known finding F-C10-1, represented by the materialised inputs under known/)                   *)
 OutOfDomain == /\ Rec[l].ev = "OutOfDomain"
                /\ stats' = [stats EXCEPT !.out_of_domain = @ + 1]
-               /\ UNCHANGED <<pol, units, toy, ust, kind, rat, pub, rgn, agg, req, acc, p, mpo, mdb, den, viol>>
+               /\ UNCHANGED <<lim, pol, units, toy, ust, kind, rat, pub, rgn, agg, req, acc, p, mpo, mdb, den, viol>>
 
 (* a panic / abort / timeout is not a step: reported as NoPanic (owned by no property of this group). Only *)
 (* the first 100 are listed (all are counted): the driver keeps details for a bounded number of cases.     *)
@@ -113,11 +118,11 @@ Panic == /\ Rec[l].ev \in {"panic", "abort", "timeout"}
          /\ Report(IF stats.panics < 100 THEN <<"NoPanic">> ELSE <<>>)
          /\ stats' = [stats EXCEPT !.panics = @ + 1]
          /\ acc' = FALSE
-         /\ UNCHANGED <<pol, units, toy, ust, kind, rat, pub, rgn, agg, req, p, mpo, mdb, den>>
+         /\ UNCHANGED <<lim, pol, units, toy, ust, kind, rat, pub, rgn, agg, req, p, mpo, mdb, den>>
 
 End == /\ Rec[l].ev = "end"
        /\ Report(Names(<< <<"HarnessOk", Rec[l].result # "harness_err">> >>))
-       /\ UNCHANGED <<pol, units, toy, ust, kind, rat, pub, rgn, agg, req, acc, p, mpo, mdb, den, stats>>
+       /\ UNCHANGED <<lim, pol, units, toy, ust, kind, rat, pub, rgn, agg, req, acc, p, mpo, mdb, den, stats>>
 
 TNext == /\ l <= Len(Rec) /\ l' = l + 1 /\ UNCHANGED <<phase, hist>>
          /\ (Begin \/ Pass \/ Step \/ Walk \/ PublishErr \/ OutOfDomain \/ Panic \/ End)
